@@ -69,7 +69,15 @@ type parserExec struct {
 	w   int    // sum of Parse results since Reset
 
 	blk lz.Block
-	log []POp
+	// The caller alternates between two blocks: the block of the previous
+	// Parse stays in its hands (held) while the parser goes on, and must not
+	// change (heldSeqs/heldLits: its content when it was returned).
+	blk2     lz.Block
+	useBlk2  bool
+	held     *lz.Block
+	heldSeqs []lz.Seq
+	heldLits []byte
+	log      []POp
 
 	findings []finding
 	dead     bool // the model cannot follow the implementation any more
@@ -232,6 +240,19 @@ func (x *parserExec) step(op POp) {
 		x.doPeekAt(op)
 	default:
 		panic("unknown op " + op.Op)
+	}
+	x.checkHeld(op.Op)
+}
+
+// checkHeld: a block handed back by an earlier Parse belongs to the caller.
+func (x *parserExec) checkHeld(after string) {
+	if x.held == nil || x.dead {
+		return
+	}
+	if !seqsEqual(x.held.Sequences, x.heldSeqs) || !bytesEqual(x.held.Literals, x.heldLits) {
+		x.report("C01", "a block returned by an earlier Parse changed while the parser went on (after %s): %d sequences / %d literal bytes, they differ from what Parse returned (the block's slices are not the caller's own?)",
+			after, len(x.held.Sequences), len(x.held.Literals))
+		x.held = nil
 	}
 }
 
@@ -514,14 +535,24 @@ var garbageSeq = lz.Seq{LitLen: 0xdeadbeef, MatchLen: 0xfeedface, Offset: 0x1234
 
 func (x *parserExec) doParse(op POp) {
 	// The block handed in is pre-filled with garbage.
-	x.blk.Sequences = append(x.blk.Sequences[:0], garbageSeq, garbageSeq)
-	x.blk.Literals = append(x.blk.Literals[:0], 0xaa, 0xbb, 0xcc)
+	blk := &x.blk
+	if x.useBlk2 {
+		blk = &x.blk2
+	}
+	x.useBlk2 = !x.useBlk2
+	if x.held == blk {
+		x.held = nil
+	}
+	blk.Sequences = append(blk.Sequences[:0], garbageSeq, garbageSeq)
+	blk.Literals = append(blk.Literals[:0], 0xaa, 0xbb, 0xcc)
 	var n int
 	var err error
-	if x.call("Parse", []string{"C16"}, func() { n, err = x.p.Parse(&x.blk, op.Flags) }) {
+	if x.call("Parse", []string{"C16"}, func() { n, err = x.p.Parse(blk, op.Flags) }) {
 		return
 	}
-	seqs, lits := x.blk.Sequences, x.blk.Literals
+	seqs, lits := blk.Sequences, blk.Literals
+	x.checkHeld("Parse")
+	x.held, x.heldSeqs, x.heldLits = blk, cloneSeqs(seqs), cloneBytes(lits)
 	if x.keepRes {
 		x.results = append(x.results, []any{"parse", n, errName(err), cloneSeqs(seqs), string(lits)})
 	}
@@ -594,8 +625,8 @@ func (x *parserExec) doParse(op POp) {
 			x.report("C14", "Parse returned n=%d but the block at %d expands to %d bytes", n, x.w, len(out))
 		}
 	}
-	if op.Flags == 0 && int64(n) != x.blk.Len() {
-		x.report("C03", "flags 0: n=%d != Block.Len()=%d", n, x.blk.Len())
+	if op.Flags == 0 && int64(n) != blk.Len() {
+		x.report("C03", "flags 0: n=%d != Block.Len()=%d", n, blk.Len())
 	}
 	m := minInt(len(out), un)
 	if !bytesEqual(out[:m], x.fed[x.w:x.w+m]) {
